@@ -150,6 +150,28 @@ CHECKS = {
          'oracle, frame invariant, residue closure and mixed sequences as C04.',
          'As C04. Harnesses that do not fit the 2^16-bit address space at w=16 are skipped and counted.',
          'DESIGN.md section 3 C04/C05'),
+ 'C08': ('model_checking',
+         'explicit-state search over pointer targets x previous targets x cell/value alphabets for every pointer macro; all bounded push/pop sequences vs a list model; all bounded call trees',
+         '32 hex pointer macro forms (read/write/xor/zero of hexes and bytes, 1- and 2-cell forms, *_and_inc, ptr_inc/dec/add/sub, '
+         'ptr_index and read_nth/write_nth with negative indices, ptr_flip, ptr_flip_dbit, ptr_wflip, ptr_wflip_2nd_word, ptr_jump) at '
+         'w=64/32 and 8 bit-namespace pointer macros at w=64/32/16, over all 64 ordered (previous target, target) pairs of an 8-cell '
+         'fenced buffer x cell and value alphabets: exactly the pointed cell / destination changes (whole-image frame invariant, guard '
+         'cells, every other variable) and to_flip / to_jump mirror their _var copies. Stack: every sequence of <= 4 (6 thorough) '
+         'operations over push/pop of hexes, bytes, 3- and 4-vectors and sp_inc/dec within depth 0..6 against a Python list (popped '
+         'values, sp, every stack cell, get_sp). Calls: every call tree of depth <= 2 (3), fan-out <= 2 over call / call with a '
+         'stack parameter / fcall-fret as a whole program; the printed markers must be the pre/post-order walk.',
+         'Pointers stay inside the fenced buffer (the macros assume dw-aligned, valid addresses). Shared pointer globals are exempt from the frame and checked by invariants.',
+         'DESIGN.md section 3 C08'),
+ 'C09': ('exploration',
+         'exhaustive values for print/cast blocks and exhaustive short input strings for input blocks on the real stl, compared with Python formatting / parsing',
+         '40 print forms (raw bits/bytes, hex digits with both cases, print_uint / print_int with every prefix/case option, decimal '
+         'printers; bit and hex namespaces; constant outputs) over all values (all 65 536 16-bit values for the number printers), 12 '
+         'input forms over all 4 369 byte strings of length <= 3 (thorough 4) over a 16-byte alphabet with and without '
+         'terminators (parsed value mod 16^n, stop byte, error exit, exact number of input bits consumed, end-of-input when '
+         'truncated), 14 cast forms exhaustively incl. dirty destinations, and the 5 buffer helpers over all strings of length <= 3 '
+         'over 4 bytes x counts 0..3; variables and the whole image otherwise unchanged.',
+         'On an error exit the destination is unspecified. Three documentation/behaviour mismatches are recorded as known findings (F17-F19).',
+         'DESIGN.md section 3 C09'),
 }
 
 NOT_YET = {
